@@ -14,6 +14,8 @@ def run(ctx):
     ctx.regen(); ctx.prove()
     from tools.props import c10
     c10.check_histories(ctx, [[]])
+    corr.dispatch(ctx, ctx.n(800, 8000))
+    ctx.notes.append('dispatch tie: ' + str((ctx.gen_meta.get('calls') or {}).get('dispatch_tie')))
     texts = [t for t in corr.load_texts(ctx, ctx.n(1500, 15000)) if 'python' not in t]
     corr.load(ctx, 0, texts=texts, loaders=('full',))
     tags = [t for t in c01.tag_vocabulary(ctx) if 'python' in t or ctx.rng.random() < 0.2]
